@@ -11,6 +11,7 @@ function b64 (s) { return Buffer.from(s, 'utf8').toString('base64') }
 const MAP_A = JSON.stringify({ version: 3, sources: ['orig-a.ts'], names: ['n1'], mappings: 'AAAA;AACAA;AACA;AACA', file: 'a.js' })
 const MAP_B = JSON.stringify({ version: 3, sources: ['orig-b.ts'], names: [], mappings: 'AAAA;;AAEA', file: 'b.js' })
 
+const EXT_VFS = { '/app/a/index.js.map': { kind: 'text', text: MAP_A }, '/app/b/index.js.map': { kind: 'text', text: MAP_B } }
 const BASE = Object.assign({}, C.FULL, { chainSourceMap: true, comments: true, telemetryVerbosity: 'DEBUG', literals: true })
 const NOPREFIX = Object.assign({}, BASE); delete NOPREFIX.localVarPrefix
 
@@ -25,6 +26,9 @@ const INPUTS = {
   twocomments_last_missing: { file: '/p/j.js', code: 'function f(a, b) { return a + b } //# sourceMappingURL=data:application/json;base64,' + b64(MAP_A) + '\nfunction g(c) { return c + 1 }\n//# sourceMappingURL=nowhere.js.map\n' },
   threecomments: { file: '/p/k.js', code: 'function f(a, b) { return a + b } //# sourceMappingURL=missing1.map\nfunction g(c) { return c + 1 } //# sourceMappingURL=data:application/json;base64,' + b64(MAP_B) + '\nfunction h(d) { return d + 2 }\n//# sourceMappingURL=missing2.map' },
   literals: { file: '/p/h.js', code: 'const secret = "a long secret literal";\nfunction f(a) { const k = { key: "another long literal" }; return a + "yet another long literal" + secret }\n' },
+  // the same relative reference in two folders, different map files behind it
+  ext_a: { file: '/app/a/index.js', code: 'function join(a, b) { return a + b }\n//# sourceMappingURL=index.js.map\n', vfs: EXT_VFS },
+  ext_b: { file: '/app/b/index.js', code: 'function join(a, b) { return a + b }\n//# sourceMappingURL=index.js.map\n', vfs: EXT_VFS },
   long: { file: '/p/i.js', code: 'function f(a, b, o) {\n  { let x = a + g() + h(); }\n  { o.p += b.trim() + `${a}${g()}`; }\n  for (const q of o) { if (q?.trim().length) { b += q } }\n  return a.concat(b, g())\n}\n' }
 }
 const OTHER = Object.assign({}, C.PLUS_ONLY, { localVarPrefix: 'zz', comments: false, chainSourceMap: false, literals: false, telemetryVerbosity: 'OFF' })
@@ -58,7 +62,7 @@ async function build (tier) {
 
 function reqOf (sym) {
   const [inst, inp] = sym.split(':')
-  return { rewriter: inst, config: INSTANCES[inst], file: INPUTS[inp].file, code: INPUTS[inp].code }
+  return { rewriter: inst, config: INSTANCES[inst], file: INPUTS[inp].file, code: INPUTS[inp].code, vfs: INPUTS[inp].vfs || {} }
 }
 
 function normResult (r, inst) {
